@@ -258,7 +258,10 @@ class BCUnits(_UnitOb):
         inner = w.array('inner', tuple(w.N))
         g1 = bnd.cellValuesWithBoundaries(inner, BC)
         g2 = bnd.cellValuesWithBoundaries(inner * K, BC2)
-        return dict(g1=g1, g2=g2, K=K, coefs=coefs)
+        M1, R1 = bnd.boundaryConditionsTerm(BC)
+        M2, R2 = bnd.boundaryConditionsTerm(BC2)
+        psi = w.rawcell('psi')._value
+        return dict(g1=g1, g2=g2, K=K, coefs=coefs, M1=M1, R1=R1, M2=M2, R2=R2, psi=psi, psiK=psi * K)
 
     def claims(self, w, S, P, part):
         from .bc import ghost_denominator
@@ -266,12 +269,16 @@ class BCUnits(_UnitOb):
         Q, G = boundary_cell(w, P, a, s)
         den = ghost_denominator(w, S['coefs'], a, s, Q)
         e = w.eq(w.at(S['g2'], G), S['K'] * w.at(S['g1'], G))
+        # the boundary EQUATIONS (what the implicit solver uses): row of the rescaled problem applied to K*psi = K * row
+        r1 = w.apply(S['M1'], S['psi'], G) - w.vec(S['R1'], G)
+        r2 = w.apply(S['M2'], S['psiK'], G) - w.vec(S['R2'], G)
+        rows = ('boundary_rows_scale_with_K[%s]' % SIDES[a][s], w.eq(r2, S['K'] * r1))
         if w.symbolic:
-            return [('ghost_values_scale_with_K[%s]' % SIDES[a][s], (R.of(den) != 0).implies(e))]
-        if abs(den) <= 1e-6:
-            return []
+            return [('ghost_values_scale_with_K[%s]' % SIDES[a][s], (R.of(den) != 0).implies(e)), rows]
         w.scale = 1e4
-        return [('ghost_values_scale_with_K[%s]' % SIDES[a][s], e)]
+        if abs(den) <= 1e-6:
+            return [rows]
+        return [('ghost_values_scale_with_K[%s]' % SIDES[a][s], e), rows]
 
 
 class SourceUnits(_UnitOb):
